@@ -438,6 +438,14 @@ def rule_dispatch_by_own_id(ctx):
     c01a(ctx)
 
 
+def rule_adapter_delegations(ctx):
+    """The awaitable adapter forwards each call to the wrapped socket's method of the same name (shared C01.h / C11.l):
+    `async with AwaitableRSocket(server)` must enter the server's own context - which sends nothing - and not run
+    connect(), which every socket inherits and which queues a SETUP frame: a server would then emit SETUP."""
+    from .awaitable import rule_delegations
+    rule_delegations(ctx, 'C01.h')
+
+
 def rule_genpub(ctx):
     """A completed generator-backed publisher does not start delivering again on a late request(n) (typestate by
     re-entry, rules/genpublisher.py)."""
@@ -448,4 +456,4 @@ def rule_genpub(ctx):
 
 
 RULES = [('C08.a', rule_a), ('C08.b', rule_b), ('C08.c', rule_c), ('C08.d', rule_d), ('C08.e', rule_e),
-         ('C08.f', rule_f), ('C08.g', rule_g), ('C05.a', rule_order), ('C13.a+C16.b', rule_h), ('C09.a+C20.d', rule_i), ('C08.i', rule_j), ('C07.e', rule_genpub), ('C01.a', rule_dispatch_by_own_id)]
+         ('C08.f', rule_f), ('C08.g', rule_g), ('C05.a', rule_order), ('C13.a+C16.b', rule_h), ('C09.a+C20.d', rule_i), ('C08.i', rule_j), ('C07.e', rule_genpub), ('C01.a', rule_dispatch_by_own_id), ('C01.h', rule_adapter_delegations)]
